@@ -109,7 +109,8 @@ def netWeightedRelabelled (perm adjS mS wS : String) : String :=
     mvec n fun i => showOptRat (Net.weightedLocalClustering n w i)] "|"
 
 /-- round 5 — C03's kernel model of `_nsi_betweenness` and its definition on `permuted_copy(perm)`
-with the node weights, the source mask and the target list renumbered with the nodes -/
+with the node weights, the source mask and the target list renumbered with the nodes; round 5b — and
+C03's model of the public wrapper with default / renumbered node-list arguments -/
 def betwRelabelled (perm adjS wS srcS tgS : String) : String :=
   let idx := permFn (nats perm)
   let A := boolMat adjS; let n := A.length
@@ -119,9 +120,17 @@ def betwRelabelled (perm adjS wS srcS tgS : String) : String :=
   let targets := nodes n idx (nats tgS)
   let D := (List.range n).map fun i => Net.bfs n a i
   let d : NetBetw.DistFn := fun i j => (D.getD i []).getD j none
+  -- round 5b: the wrapper `apiBetweenness` (C03) of `net_betweenness_api_relabel`: the source list
+  -- (the nodes with the mask set) renumbered through the inverse permutation, default arguments
+  let S := some (nodes n idx ((List.range n).filter fun v => (bools srcS).getD v false))
+  let T := some targets
   join [showNats targets,
     showRats (NetBetw.nsiBetweenness n a w isSrc targets),
-    showRats (NetBetw.nsiBetweennessDef n a w d isSrc targets)] "|"
+    showRats (NetBetw.nsiBetweennessDef n a w d isSrc targets),
+    showRats (NetBetw.apiBetweenness n a w none none true),
+    showRats (NetBetw.apiBetweenness n a w S none true),
+    showRats (NetBetw.apiBetweenness n a w none T true),
+    showRats (NetBetw.interregionalBetweenness n a w S T)] "|"
 
 /-- `Pyunicorn.Cross` (C11) on the renumbered network with the renumbered node lists -/
 def crossRelabelled (perm dirS adjS wS l1 l2 dS : String) : String :=
